@@ -33,16 +33,20 @@ func (s *countStore) Close() error {
 	}
 	return err
 }
-func (s *countStore) Drop()        { s.drops++; s.Store.Drop() }
+func (s *countStore) Drop() { s.drops++; s.Store.Drop() }
 
 // fullProducer is a kvdb.FullDBProducer over a simulated disk (flush protocol stubbed out).
 type fullProducer struct {
-	d      *Disk
-	stores []*countStore
+	d        *Disk
+	stores   []*countStore
 	failOpen map[string]bool
 }
 
 func (p *fullProducer) OpenDB(name string) (kvdb.Store, error) {
+	if p.failOpen[name] {
+		delete(p.failOpen, name) // injected fault: this open fails, the next one works
+		return nil, ErrInjected
+	}
 	st, err := p.d.Producer().OpenDB(name)
 	if err != nil {
 		return nil, err
@@ -51,22 +55,25 @@ func (p *fullProducer) OpenDB(name string) (kvdb.Store, error) {
 	p.stores = append(p.stores, cs)
 	return cs, nil
 }
-func (p *fullProducer) Names() []string                                      { return p.d.Producer().Names() }
-func (p *fullProducer) NotFlushedSizeEst() int                               { return 0 }
-func (p *fullProducer) Flush(id []byte) error                                { return nil }
-func (p *fullProducer) Initialize(n []string, id []byte) ([]byte, error)     { return id, nil }
-func (p *fullProducer) Close() error                                         { return nil }
+func (p *fullProducer) Names() []string                                  { return p.d.Producer().Names() }
+func (p *fullProducer) NotFlushedSizeEst() int                           { return 0 }
+func (p *fullProducer) Flush(id []byte) error                            { return nil }
+func (p *fullProducer) Initialize(n []string, id []byte) ([]byte, error) { return id, nil }
+func (p *fullProducer) Close() error                                     { return nil }
 
 // ---- C27: caching producer reference-counts opens ------------------------------------------------
 
 func RunCachedProducer(c *sim.Ctx) {
 	variant := knobInt(c, "wrapper", 0, 1) // 0 WrapAll, 1 Wrap
 	nOps := knobInt(c, "ops", 2, 40)
-	faults := knobInt(c, "close_faults", 0, 1) == 1 // fault-injecting runs are a separate configuration
+	faults := knobInt(c, "close_faults", 0, 1) == 1      // fault-injecting runs are a separate configuration
+	dropOpen := knobInt(c, "drop_while_open", 0, 1) == 1 // Drop may also be called while opens are outstanding
 	names := []string{"a", "b", "c"}
-	c.ProbeDecl("over_close_reported", "reopen_after_last_close", "second_drop_suppressed", "last_close_failed_by_injection")
+	c.ProbeDecl("over_close_reported", "reopen_after_last_close", "second_drop_suppressed", "last_close_failed_by_injection",
+		"drop_with_opens_outstanding", "last_close_after_drop", "open_failed_by_injection", "open_after_failed_open")
 
-	under := &fullProducer{d: NewDisk()}
+	under := &fullProducer{d: NewDisk(), failOpen: map[string]bool{}}
+	failedOpen := map[string]bool{}
 	var prod kvdb.DBProducer
 	if variant == 0 {
 		prod = cachedproducer.WrapAll(under)
@@ -74,11 +81,12 @@ func RunCachedProducer(c *sim.Ctx) {
 		prod = cachedproducer.Wrap(under)
 	}
 	type cyc struct {
-		handle kvdb.Store
-		refs   int
-		inst   *countStore // underlying instance of the current cycle
-		drops  int         // real drops allowed before the next open
-		ended  bool
+		handle      kvdb.Store
+		refs        int
+		inst        *countStore // underlying instance of the current cycle
+		drops       int         // real drops allowed before the next open
+		ended       bool
+		droppedOpen bool // dropped while opens were outstanding
 	}
 	st := map[string]*cyc{}
 	wname := []string{"WrapAll", "Wrap"}[variant]
@@ -87,11 +95,11 @@ func RunCachedProducer(c *sim.Ctx) {
 		if len(c.Trace.Ops) >= nOps {
 			return sim.Op{}, false
 		}
-		w := []int{5, 5, 2, 0}
+		w := []int{5, 5, 2, 0, 0}
 		if faults {
-			w[3] = 2
+			w[3], w[4] = 2, 1
 		}
-		return sim.Op{K: []string{"open", "close", "drop", "armfail"}[c.PickW("op", w)], A: []int64{int64(c.Pick("name", len(names)))}}, true
+		return sim.Op{K: []string{"open", "close", "drop", "armfail", "armopenfail"}[c.PickW("op", w)], A: []int64{int64(c.Pick("name", len(names)))}}, true
 	}
 	for {
 		op, ok := c.Next(gen)
@@ -104,12 +112,27 @@ func RunCachedProducer(c *sim.Ctx) {
 		switch op.K {
 		case "open":
 			before := len(under.stores)
+			expectFail := under.failOpen[name] && (cy == nil || cy.refs == 0)
 			h, err := prod.OpenDB(name)
+			if expectFail {
+				// the underlying open failed (injected): the error is passed on and the open does not count
+				if err == nil {
+					c.Violation("cached-open", "cached-open/fault-swallowed", "%s: OpenDB(%s) succeeded although the underlying open failed", wname, name)
+				}
+				c.Probe("open_failed_by_injection")
+				failedOpen[name] = true
+				continue
+			}
 			if err != nil {
 				c.Violation("cached-open", "cached-open/error", "%s: OpenDB(%s): %v", wname, name, err)
 			}
 			c.Count("opens", 1)
-			if _, herr := h.Has([]byte{1}); herr != nil {
+			if failedOpen[name] {
+				c.Probe("open_after_failed_open")
+			}
+			if cy != nil && cy.refs > 0 && cy.droppedOpen {
+				// the cached store was dropped while open: whether it can still be read is the backend's business
+			} else if _, herr := h.Has([]byte{1}); herr != nil {
 				c.Violation("cached-open", "cached-open/unusable", "%s: OpenDB(%s) returned a store that cannot be read: %v", wname, name, herr)
 			}
 			if cy != nil && cy.refs > 0 {
@@ -156,6 +179,9 @@ func RunCachedProducer(c *sim.Ctx) {
 				if cy.inst.closes != closesBefore+1 {
 					c.Violation("cached-close", "cached-close/underlying-close-count", "%s: the last close of %s closed the underlying database %d times", wname, name, cy.inst.closes-closesBefore)
 				}
+				if cy.droppedOpen {
+					c.Probe("last_close_after_drop")
+				}
 				cy.refs = 0
 			default:
 				if err != nil {
@@ -171,13 +197,23 @@ func RunCachedProducer(c *sim.Ctx) {
 				cy.inst.failClose = true
 				c.Count("close_faults_armed", 1)
 			}
+		case "armopenfail":
+			if faults {
+				under.failOpen[name] = true
+				c.Count("open_faults_armed", 1)
+			}
 		case "drop":
 			if cy == nil {
 				continue
 			}
-			// drop is only legal on a closed database of the simulated disk: drop after the cycle ended
+			// by default drop comes after the cycle ended (the on-disk backends insist on it); runs with
+			// drop_while_open also drop with opens outstanding, which must not disturb the counting of closes
 			if cy.refs > 0 {
-				continue
+				if !dropOpen {
+					continue
+				}
+				cy.droppedOpen = true
+				c.Probe("drop_with_opens_outstanding")
 			}
 			before := cy.inst.drops
 			cy.handle.Drop()
